@@ -21,6 +21,7 @@ PROPS = {
             _c02("TestC17", "c17", (2, 12), (2, 600)),
             _c02("TestC14", "c14", (2, 10), (2, 500)),
             _c02("TestC20Loop", "c20", (2, 3), (3, 120)),
+            _c02("TestC18", "c18", (2, 6), (3, 300)),
             _c02("TestC02Params", "props", (3, 25), (4, 2500)),
         ],
         rule="union profile: the histories generated for C01, C03 (corrupted signature shares), C07, C08, C10, C14, C15, C17 and C20 (valid and "
@@ -244,6 +245,23 @@ PROPS = {
                      "IBC route is used only as a failure source (no live channel); fixed-point encoder only",
                      "tunnel-created signings are never signed, so time-outs/deactivations provide the 'members unavailable' fault"],
         nt_floor=0.05,
+    ),
+    "C18": dict(
+        stages=[dict(test="TestC18", pkg="c18", quick=(16, 14), thorough=(16, 1200), timeout=dict(quick=900, thorough=3400))],
+        rule="case = genesis current group or none, small Min/MaxTransitionDuration, CreationPeriod 4-9, SigningPeriod 1-3, MaxSigningAttempt 1-3 and "
+             "late-bound ops: gov MsgTransitionGroup / MsgForceTransitionGroup with exec times at min / max / just outside the window / not after block "
+             "time, a second proposal while one is pending, DKG steps of the incoming group (honest, member stops, false complaint), hand-over "
+             "signing by all/some/none of the current group, block ends with dt crossing ExecTime before/at/after each milestone, member activation, "
+             "user signing requests at every stage; non-trivial = a transition reached WAITING_SIGN or WAITING_EXECUTION and >=1 milestone lies within "
+             "one block of the first block at/after ExecTime; distinct = hash of case JSON",
+        explanation="reference state machine written from the statement: CurrentGroup changes only in a block with time >= ExecTime whose transition was "
+                    "WAITING_EXECUTION (incoming group ACTIVE and forced or hand-over signed), otherwise dropped; at most one transition; requests during "
+                    "WAITING_EXECUTION create a paid current-group signing and a best-effort unpaid incoming-group signing, never earlier; after execution "
+                    "the member list is exactly the new group's; events and balances cross-checked; the incoming group's DKG is driven with real messages "
+                    "(daemon round-3 code through the cylinder hook)",
+        assumptions=["DKG faults limited to a stopping member and a false complaint (corrupted shares are C04)", "integer-second times; one validator; mint off",
+                     "for doomed transitions (DKG failed/expired, hand-over failed) both an immediate drop and a drop at ExecTime are accepted"],
+        nt_floor=0.04,
     ),
     "C19": dict(
         stages=[dict(test="TestC19", pkg="c19", quick=(16, 30), thorough=(16, 1500), timeout=dict(quick=900, thorough=3300),
